@@ -41,6 +41,7 @@ impl CoapResponse {
             MessageClass::Response(Status::Valid) => &Status::Valid,
             MessageClass::Response(Status::Changed) => &Status::Changed,
             MessageClass::Response(Status::Content) => &Status::Content,
+            MessageClass::Response(Status::Continue) => &Status::Continue,
 
             MessageClass::Response(Status::BadRequest) => &Status::BadRequest,
             MessageClass::Response(Status::Unauthorized) => {
@@ -55,6 +56,7 @@ impl CoapResponse {
             MessageClass::Response(Status::NotAcceptable) => {
                 &Status::NotAcceptable
             }
+            MessageClass::Response(Status::Conflict) => &Status::Conflict,
             MessageClass::Response(Status::PreconditionFailed) => {
                 &Status::PreconditionFailed
             }
@@ -63,6 +65,15 @@ impl CoapResponse {
             }
             MessageClass::Response(Status::UnsupportedContentFormat) => {
                 &Status::UnsupportedContentFormat
+            }
+            MessageClass::Response(Status::RequestEntityIncomplete) => {
+                &Status::RequestEntityIncomplete
+            }
+            MessageClass::Response(Status::UnprocessableEntity) => {
+                &Status::UnprocessableEntity
+            }
+            MessageClass::Response(Status::TooManyRequests) => {
+                &Status::TooManyRequests
             }
 
             MessageClass::Response(Status::InternalServerError) => {
@@ -80,6 +91,9 @@ impl CoapResponse {
             }
             MessageClass::Response(Status::ProxyingNotSupported) => {
                 &Status::ProxyingNotSupported
+            }
+            MessageClass::Response(Status::HopLimitReached) => {
+                &Status::HopLimitReached
             }
             _ => &Status::UnKnown,
         }
